@@ -66,6 +66,71 @@ Theorem C18_simplify_batch_scales_flops_partial : forall szs x il jl, NoDup (lke
 Proof. exact batch_removal_scales_flops. Qed.
 Print Assumptions C18_simplify_batch_scales_flops_partial.
 
+(* simplify_preserves_rule, FULL STRENGTH.  C18_simplify_batch_scales_flops_partial was partial because
+   nothing was said about the other simplify passes; that gap is closed here:
+   * simplify_batch: the per-contraction scaling (first conjunct, = the partial statement) and, with
+     batch_factor, its exact compensation over a whole run (C18_fixed_run_reports_unsimplified_flops);
+   * simplify_single_terms: compute_simplified applied to ANY input's raw legs -- sorted, one positive
+     entry per occurrence, repeated and fully-summed indices allowed -- yields exactly the tree's leaf
+     legs (compute_leaf_legs) under the label -> processor-index renaming rho: strictly sorted, positive
+     counts, keys in the image of rho, counts equal to leaf_legs n [] k (second conjunct);
+   * simplify_scalars / simplify_hadamard only call contract_nodes, whose legs and flops are the tree
+     rule by C18_processor_rule_eq_tree_rule / C18_processor_flops_eq_tree_flops.
+   So after the passes every node the processor holds carries tree legs, and later steps' figures are
+   the tree's. *)
+Theorem C18_simplify_preserves_rule :
+  (forall szs x il jl, NoDup (lkeys il) -> NoDup (lkeys jl) ->
+     pflops szs il jl =
+     (pflops szs (drop_ix x il) (drop_ix x jl) *
+      (if memb x (lkeys il) || memb x (lkeys jl) then psize_of szs x else 1))%Z) /\
+  (forall (n : net) (rho : ix -> nat) (ap : list nat) (k : nat) (l : plegs),
+     k < NN n -> nd_from 0 l -> pos l ->
+     (forall j, In j (lkeys l) -> exists e, In e (universe n) /\ j = rho e) ->
+     (forall e, In e (universe n) -> papp_of ap (rho e) = appear n e) ->
+     (forall e, In e (universe n) -> pcount (rho e) l = occ (nth k (inputs n) []) e) ->
+     LR n rho (leaf_legs n [] k) (compute_simplified ap l)).
+Proof. exact (conj batch_removal_scales_flops simplified_is_leaf_legs). Qed.
+Print Assumptions C18_simplify_preserves_rule.
+
+(* compute_simplified alone: merged counts, entries whose count reaches the appearances dropped *)
+Theorem C18_compute_simplified_spec : forall ap l, nd_from 0 l -> pos l ->
+  let R := compute_simplified ap l in
+  ssorted R /\ pos R /\ (forall j, In j (lkeys R) -> 0 < pcount j l) /\
+  forall j, lget0 j R = (if Nat.eqb (pcount j l) (papp_of ap j) then 0 else pcount j l).
+Proof. exact compute_simplified_spec. Qed.
+Print Assumptions C18_compute_simplified_spec.
+
+(* FULL-STRENGTH form of C18_fixed_step_reports_original_flops_partial.  The partial version assumed, for
+   the step at hand, that the held legs are the originals minus the batch indices B and that batch_factor =
+   prod sizes(B); it did not show that this holds again for the next step.  Here the relation BRel B p1 p2
+   between the run WITHOUT simplify_batch (p1) and the run WITH it (p2) -- same node ids, every node of p2
+   holds drop_list B of p1's legs, p1's legs strictly sorted, batch_factor p2 = prod sizes(B) -- is shown
+   to be PRESERVED by a contraction (the new node again holds originals minus B, because compute_contracted
+   commutes with dropping indices), and both runs add the same flops.  The only per-step premise left is that
+   every index of B sits on one of the two operands (present_b in the run-level theorem). *)
+Theorem C18_fixed_step_reports_original_flops : forall B p1 p2 i j, BRel B p1 p2 -> NoDup B -> i <> j ->
+  (forall x, In x B -> In x (lkeys (pget p1 i)) \/ In x (lkeys (pget p1 j))) ->
+  BRel B (fst (proc_contract i j p1)) (fst (proc_contract i j p2)) /\
+  (pflops_acc (fst (proc_contract i j p2)) - pflops_acc p2 =
+   pflops_acc (fst (proc_contract i j p1)) - pflops_acc p1)%Z.
+Proof. exact brel_step. Qed.
+Print Assumptions C18_fixed_step_reports_original_flops.
+
+(* non-vacuity of the single-term statement: a tensor with a repeated index (0 twice), a dangling index (2)
+   and a shared one (1); its raw processor legs satisfy the hypotheses and compute_simplified gives the
+   tree's leaf legs under the renaming *)
+Example C18_single_term_nonvacuous :
+  let n := mkNet [[0; 2; 0; 1]; [1; 0]] [0] [(0, 2%Z); (1, 3%Z); (2, 5%Z)] in
+  let p0 := proc_init_fixed n true in
+  let l := pget p0 0 in let rho := rho_of p0 in
+  l = [(0, 1); (0, 1); (1, 1); (2, 1)] /\ nd_from 0 l /\
+  map (fun e => pcount (rho e) l) (universe n) = map (occ (nth 0 (inputs n) [])) (universe n) /\
+  map (fun e => papp_of (papp p0) (rho e)) (universe n) = map (appear n) (universe n) /\
+  compute_simplified (papp p0) l = [(0, 2); (2, 1)] /\
+  map (fun e => lget0 (rho e) (compute_simplified (papp p0) l)) (universe n) =
+  map (fun e => lget0 e (leaf_legs n [] 0)) (universe n).
+Proof. vm_compute. repeat split; try reflexivity; lia. Qed.
+
 (* HISTORICAL (code before fix cd00d66, model variant pfix = false, `reported_flops`):
    finding 13 in the model: the flops random-greedy reported for a path (processor with
    track_flops, simplify_batch, then the contractions, flops NOT scaled by batch_factor) were
